@@ -35,6 +35,8 @@ class Instr(object):
         self.saved = [(api, '_convert_actual', api._convert_actual), (ag_logging, 'warning', ag_logging.warning),
                       (conversion, '_ALLOWLIST_CACHE', conversion._ALLOWLIST_CACHE),
                       (api._TRANSPILER, '_cache', api._TRANSPILER._cache)]
+        self.allowlist_cache_cls = type(conversion._ALLOWLIST_CACHE)
+        self.transpiler_cache_cls = type(api._TRANSPILER._cache)
         self.saved_env = os.environ.get('AUTOGRAPH_STRICT_CONVERSION')
         self.converted_entities = []
         self.warnings = []
@@ -64,9 +66,10 @@ class Instr(object):
     def reset(self, fresh_transpiler):
         del self.converted_entities[:]
         del self.warnings[:]
-        self.conversion._ALLOWLIST_CACHE = self.cache.UnboundInstanceCache()
+        # a fresh, empty cache OF THE CLASS THE CODE UNDER TEST USES (never a class chosen by the harness)
+        self.conversion._ALLOWLIST_CACHE = self.allowlist_cache_cls()
         if fresh_transpiler:
-            self.api._TRANSPILER._cache = self.cache.CodeObjectCache()
+            self.api._TRANSPILER._cache = self.transpiler_cache_cls()
 
     def mark(self):
         return len(self.converted_entities), len(self.warnings)
@@ -1149,7 +1152,14 @@ HIST_SINGLES = [('bound_falsy_bool', 0), ('classm_falsy', 1), ('builtin:decimal.
 # distinct callables sharing code / a cache key
 HIST_PAIRS = [('twins', ('fn', 0), ('fn', 0)), ('instances', ('bound', 0), ('bound', 0)), ('unbound_bound', ('unbound', 0), ('bound', 0)),
               ('twin_lambdas', ('lambda', 0), ('lambda', 1)), ('mixin', ('mix_tc', 0), ('mix_plain', 0)),
-              ('failing_instances', ('callobj_forelse', 0), ('callobj_forelse', 0))]
+              ('failing_instances', ('callobj_forelse', 0), ('callobj_forelse', 0)),
+              # siblings: ONE code object, different function objects, DIFFERENT policy verdicts (exempt one listed first; both orders run)
+              ('sib_wraps', ('traced_copy', 0), ('traced_user', 0)),
+              ('sib_artifact', ('fn_artifact', 0), ('fn', 0)),
+              ('sib_allowmod', ('fn_mod:malt.c13fake', 0), ('fn', 0)),
+              ('sib_allowmod_partial', ('fn_mod:malt.c13fake', 1), ('fn', 3)),
+              ('sib_plugin', ('tfplugin', 0), ('fn', 0)),
+              ('sib_failing', ('forelse', 0), ('forelse', 0))]
 HIST_OPTS = [(False, True, True), (True, True, True), (False, False, False), (False, True, False)]   # (user_requested, internal_convert, recursive)
 
 
@@ -1224,7 +1234,9 @@ def _run_histories(run, R, hists):
             log = []
             b, f, flav, _, _ = R.build(c0, log)
             levels, base_f = real_levels(f)
-            keys = [[kid(lv), kid(lv)] for lv in levels] + [[kid(base_f), kid(base_f.__func__ if inspect.ismethod(base_f) else base_f)]]
+            code = getattr(base_f, '__code__', None) if (inspect.isfunction(base_f) or inspect.ismethod(base_f)) else None
+            keys = [[kid(lv), kid(lv), 'none'] for lv in levels] + \
+                   [[kid(base_f), kid(base_f.__func__ if inspect.ismethod(base_f) else base_f), 'none' if code is None else kid(code)]]
             tlog = []
             tb, tf, _, _, _ = R.build(c0, tlog)      # the twin receives the same history directly (callables may be stateful)
             slots.append({'b': b, 'f': f, 'flav': flav, 'levels': levels, 'base_f': base_f, 'log': log, 'keys': keys, 'chain_ix': chain_ix, 'base': base,
@@ -1297,12 +1309,14 @@ def _run_histories(run, R, hists):
             models[i] = {'effects': effs, 'shared_disagree': part['class'][0] == 'True', 'foreign': part['class'][1] == 'True',
                          'uncacheable': part['class'][2] == 'True'}
     dis = []
-    stats = {'histories': len(recs), 'calls': 0, 'converted_after_disabled': 0, 'remembered_failure_skips': 0, 'shared_key_histories': 0}
+    stats = {'histories': len(recs), 'calls': 0, 'converted_after_disabled': 0, 'remembered_failure_skips': 0, 'shared_key_histories': 0, 'shared_code_distinct_function_histories': 0}
     for (h, slots, obs_list), m, req in zip(recs, models, reqs):
         run.case(h.key(), True)
         hj = h.to_json()
-        if len(set(tuple(sl['keys'][-1][1:]) for sl in slots)) < len(slots):
+        if len(set(sl['keys'][-1][1] for sl in slots)) < len(slots):
             stats['shared_key_histories'] += 1
+        elif len(set(sl['keys'][-1][2] for sl in slots)) < len(slots):
+            stats['shared_code_distinct_function_histories'] += 1
         failed_keys = set()      # (cache key of the base, options) of genuine conversion failures that were remembered
         prev_disabled = False
         for i, ob in enumerate(obs_list):
